@@ -346,6 +346,17 @@ def c04_extra():
         e5["tpl"] = "eop"
         es5.append(e5)
     out.append(("V5-edge-template-three-groups", dict(edge_template=True), model([a, b], nodes4, es5, edge_ops=[eop])))
+    # diffusive coupling through an edge template with a SECOND input bound to a node variable by its path (the target's own state)
+    dop = dict(name="dop", eqs=[["s_out", "alg", ["-", V("x_s"), V("x_t")]]], vars={"s_out": ["output", 0.0], "x_s": ["input", 0.0], "x_t": ["input", 0.0]})
+    lin = op_li("lin", x="x", ins=("s_in",), tau=1.0, x0=0.2, in_defaults={"s_in": 0.0}, extra=V("k"))
+    lin["vars"]["k"] = ["const", 1.0]
+    for order, tagx in ((("a", "b", "c"), "target-last"), (("c", "a", "b"), "target-first"), (("a", "c", "b"), "target-middle")):
+        nd = {}
+        for j, lab in enumerate(order):
+            nd[lab] = dict(ops=["lin"], over={"lin/k": 0.5 + 0.75 * "abc".index(lab), "lin/x": 0.1 * (1 + "abc".index(lab))})
+        out.append((f"V10-edge-template-second-input-by-path-{tagx}", dict(edge_template=True, path_input=True),
+                    model([lin], nd, [dict(edge("a/lin/x", "c/lin/s_in", 1.0), tpl="dop", post={"x_t": "c/lin/x"}),
+                                      dict(edge("c/lin/x", "b/lin/s_in", 0.5), tpl="dop", post={"x_t": "b/lin/x"})], edge_ops=[dop])))
     es6 = [dict(e_, tpl="eop") if i % 2 == 0 else e_ for i, e_ in enumerate(es4)]
     out.append(("V6-edge-template-mixed-with-plain", dict(edge_template=True), model([a, b], nodes4, es6, edge_ops=[eop])))
     return out
@@ -387,6 +398,9 @@ def c06_families():
     out.append(("O6-twin-operators-renamed-types", dict(twins=True), st["F9-twin-operators-renamed-types"]))
     # larger single-type populations with one-to-one edges: permuted sources (first and last kept), and a 12-ring whose edges are
     # DECLARED in a shuffled order that starts at unit 0 and ends at unit 11
+    for t_, f_, m_ in c04_extra():
+        if t_.startswith("V10"):
+            out.append((t_.replace("V10-", "O9-"), dict(f_), m_))
     out.append(("O7-perm-11", dict(population=11), st["F8-perm-11"]))
     nodes_r = {f"n{i}": dict(ops=["opB"], over={"opB/tau": 1.0 + 0.25 * i}) for i in range(12)}
     order = [0, 7, 3, 9, 1, 5, 10, 2, 8, 4, 6, 11]
@@ -507,6 +521,13 @@ def c08_cases(seed=0):
     out.append(("I8-hierarchy-single", dict(hierarchy=1), hm, {"c2/p2/op/u": sig()}))
     out.append(("I9-hierarchy-wildcard", dict(hierarchy=1), hm, {"all/p1/op/u": sig()}))
     out.append(("I10-coarse-input-adaptive-grid", dict(coarse=True), single, {"p/op/u": sig(n=9)}))
+    # two node types (both carry the driven operator, one has a second operator) declared INTERLEAVED: column i drives node i
+    aux = op_li("aux", x="q", ins=("w",), tau=1.5, x0=0.1, in_defaults={"w": 0.2})
+    inter = {"a1": dict(ops=["op"], over={"op/tau": 2.0}), "b1": dict(ops=["op", "aux"], over={"op/tau": 3.0}),
+             "a2": dict(ops=["op"], over={"op/tau": 4.0}), "b2": dict(ops=["op", "aux"], over={"op/tau": 5.0})}
+    out.append(("I15-column-per-node-interleaved-types", dict(vec_only=True), model([integ, aux], inter, [edge("a1/op/x", "b2/aux/w", 0.5)]),
+                {"all/op/u": sig(cols=4)}))
+    out.append(("I16-broadcast-interleaved-types", dict(), model([integ, aux], inter, [edge("a1/op/x", "b2/aux/w", 0.5)]), {"all/op/u": sig()}))
     # hierarchy whose circuits and nodes are NOT declared in alphabetical order: one column per node in DECLARATION order
     inner_u = model([integ], {"pc": dict(ops=["op"]), "ein": dict(ops=["op"], over={"op/tau": 1.0})}, [edge("pc/op/x", "ein/op/u", 1.0)])
     hu = dict(ops={}, nodes={}, edges=[edge("right/ein/op/x", "left/pc/op/u", 0.8)],
